@@ -44,6 +44,17 @@ Latitude (documented, see DESIGN C07 / C05-L)
       (otherwise C05's finding K13 in construct_frames_from_location applies; counted as `frames-skipped-k13`).
   (f) AnnotationCollection twins are compared with explicit start/end (the documented default bounds are taken from the
       parent and therefore differ by construction); unbounded twins are compared on everything but start/end/guid.
+
+Findings on the unchanged tree (each reproduced by hand; classify() recognises them by re-deriving the mechanism)
+  K18  single-block CDS, start frame 1/2, the chunk removes d 5' bases with f + (-d mod 3) >= 3: the first codon inside the
+       chunk is lost (same offset sum as C05's K18; the repair is blocked by 4 pinned tests)            -> known finding
+  K8   GeneInterval / FeatureIntervalCollection / AnnotationCollection digest chunk_relative_location into a computed guid
+       (the repair changes the identifiers pinned by the shimmed test_gff3_export_chunk_relative)       -> known finding
+  K5   CDS with no base in the chunk: is_chunk_relative is False, chunk-relative codon queries fall through to the
+       chromosome codons                                  -> proposed_fixes/C07-cds-codons-when-nothing-of-it-is-on-the-chunk.diff
+  K21  multi-block CDS whose in-chunk bases are all removed by frame cleaning: EmptyLocationException instead of ()  -> same diff
+  K20  chromosome_start/end window combined with a chunk: the frame offset is measured from the window start instead of the
+       5' end of the CDS (codons out of frame)            -> proposed_fixes/C07-window-plus-chunk-frame-offset.diff
 """
 import copy
 import hashlib
@@ -70,7 +81,7 @@ RULE = (
 )
 SCOPE = {
     "quick": {"ENG_G": 17, "NTX": 900, "NWIN": 10, "NCOLL": 220, "NCW": 5, "ALLWIN_TX": 0, "ALLWIN_G": 0},
-    "thorough": {"ENG_G": 22, "NTX": 8000, "NWIN": 24, "NCOLL": 2000, "NCW": 10, "ALLWIN_TX": 800, "ALLWIN_G": 36},
+    "thorough": {"ENG_G": 22, "NTX": 6000, "NWIN": 24, "NCOLL": 1500, "NCW": 10, "ALLWIN_TX": 600, "ALLWIN_G": 36},
 }
 FLOOR = {"quick": 600, "thorough": 2500}
 REQUIRED_MONITORS = ["twin.chromosome-answers", "twin.guid-supplied", "twin.guid-computed", "chunk.location", "chunk.sequence",
@@ -598,7 +609,7 @@ def check_cds_chunk(ctx, label, mk, M, cs, ce, ncw, widx, via_tx=False):
         r, e6 = ctx.call(lambda: str(cds_of(b).translate()))
         _judge_seq(ctx, kk, "translate", r, e6, "".join(wprot), wcod, in_chunk, label, w, mech)
     if via_tx:
-        c = mk()
+        c = b
         r, e7 = ctx.call(lambda: str(c.get_cds_sequence()))
         _judge_seq(ctx, kk, "get_cds_sequence", r, e7, wseq, wcod, in_chunk, label, w, mech)
         if wprot is not None:
@@ -614,7 +625,7 @@ def check_cds_chunk(ctx, label, mk, M, cs, ce, ncw, widx, via_tx=False):
     cands = [(max(lo, cs) + d, None) for d in (1, 2, 3)] + [(None, min(hi, ce) - d) for d in (1, 2)] + [(lo + 1, hi - 1), (lo + 2, None), (cs, ce)]
     r2.shuffle(cands)
     cw = cands[:max(1, ncw - 1)] + [(r2.randint(max(0, lo - 1), hi - 1), r2.randint(lo + 1, hi + 1))]
-    wc = mk()
+    wc = a      # the per-window preparation is keyed by the window; the codon tuple cached on `a` is not consulted
     for (ws, we) in cw:
         if ws is not None and we is not None and ws >= we:
             continue
@@ -639,7 +650,7 @@ def check_cds_chunk(ctx, label, mk, M, cs, ce, ncw, widx, via_tx=False):
     if not in_chunk:
         ctx.seen("chunk.frames")
         return
-    fo = mk()
+    fo = b
     fr, e = ctx.call(lambda: [f.value for f in fo.chunk_relative_frames])
     d, e9 = ctx.call(lambda: fo.to_dict(chromosome_relative_coordinates=False))
     if e is not None or e9 is not None:
